@@ -541,3 +541,21 @@ pub fn literal_verdict_rel(kind: char, text: &str, start: usize) -> String {
         None => v,
     }
 }
+
+/// The range of the first FATAL escape error `rustc_literal_escaper` reports
+/// for `content` taken as the inside of a string literal (what
+/// `unescape_str` looks at), relative to `content`; `None` when it decodes.
+pub fn escape_range(content: &str) -> Option<(usize, usize)> {
+    let mut first: Option<(usize, usize)> = None;
+    rustc_literal_escaper::unescape_str(
+        content,
+        |range: std::ops::Range<usize>, res| {
+            if let Err(e) = res {
+                if e.is_fatal() && first.is_none() {
+                    first = Some((range.start, range.end));
+                }
+            }
+        },
+    );
+    first
+}
